@@ -21,6 +21,10 @@ Proof.
   - intro C. destruct (leqb a b) eqn:E; [apply leqb_eq in E; contradiction|reflexivity].
 Qed.
 
+Definition kvalid (k : list N) : Prop := Forall (fun x => x < 16) k.
+Lemma kvalid_head : forall n k, kvalid (n :: k) -> n < 16 /\ kvalid k.
+Proof. intros n k V. inversion V; subst. split; assumption. Qed.
+
 Section BASE.
   Variable H : list N -> list N.
   Variable A : Type.
